@@ -62,7 +62,7 @@ Meths  == {"ref", "output", "loopref", "loopoutput"}
 
 ShapeSpace == [off : Offsets, aux : BOOLEAN, sw : 0..1, sa : 0..1, sc : 0..1, carry : {"none", "W", "A"},
                cond : {"W", "A", "S"}, repl : Repls, names : NameKinds, twin : Twins,
-               meth : {"output", "ref", "copy"}, file : BOOLEAN]
+               meth : {"output", "ref", "copy"}, file : BOOLEAN, cfile : BOOLEAN]
 
 (* Documents the loader legitimately supports (everything else is outside the property):            *)
 (*  - a consumer is never in an earlier stage than its producer, also across iterations               *)
@@ -84,6 +84,8 @@ ValidShape(s) ==
     \* (`state.txt`) with :output, :ref or :copy; the file variants are explored for the loops that carry a binding
     /\ (s.meth # "output" => s.file)
     /\ s.file => (s.carry # "none" /\ s.names = "plain" /\ ~s.twin /\ s.repl = 0 /\ s.cond # "S")
+    \* ... or, the mirror image, the binding values have no path and the CONSUMER's reference adds it: `inp/state.txt:<method>`
+    /\ s.cfile => (s.file /\ (~s.aux \/ s.carry = "A"))
 
 Shapes == {s \in ShapeSpace : ValidShape(s)}
 
@@ -94,9 +96,10 @@ VARIABLES sh,      \* the document shape (constant along a behaviour)
           latest,  \* [loop -> [role -> iteration of the instance a :ref/:output from outside resolves to]]
           order,   \* [loop -> [role -> sequence of iterations an aggregate reference lists]]
           cond,    \* [loop -> iteration whose condition producer decides whether to loop again]
-          insp     \* kinds of inspection the controller performed since the newest unrolling (a set)
-vars == <<sh, k, inst, wire, latest, order, cond, insp>>
-unrolled == <<sh, k, inst, wire, latest, order, cond>>   \* the workflow itself
+          insp,    \* kinds of inspection the controller performed since the newest unrolling (a set)
+          done     \* [loop -> has the condition of the newest iteration answered "false": the loop is over]
+vars == <<sh, k, inst, wire, latest, order, cond, insp, done>>
+unrolled == <<sh, k, inst, wire, latest, order, cond, done>>   \* the workflow itself
 
 Loops(s)   == IF s.twin THEN {1, 2} ELSE {1}
 Consumed(s) == IF s.aux THEN {"W", "A"} ELSE {"W"}       \* the roles that take part in the dataflow of the loop
@@ -139,11 +142,15 @@ Init == /\ sh \in Shapes
         /\ order = [d \in Loops(sh) |-> [r \in Roles(sh) |-> <<0>>]]
         /\ cond = [d \in Loops(sh) |-> 0]
         /\ insp = {}
+        /\ done = [d \in Loops(sh) |-> FALSE]
 
 (* instantiate_dowhile_next_iteration(document of loop d, k[d] + 1): the new iteration takes its     *)
 (* loop-carried input from what is the newest iteration *now*; nothing else changes.                  *)
+(* The runtime gets here when the condition producer of iteration k[d] finishes and its output reads "true"           *)
+(* (Controller.finishedCheck -> _handle_condition_component_finished -> _instantiate_next_dowhile_iteration): the          *)
+(* controller has to recognise the output of THAT instance as the loop's condition, for every k.                           *)
 Iterate(d) ==
-    /\ d \in Loops(sh) /\ k[d] < Bound(d)
+    /\ d \in Loops(sh) /\ k[d] < Bound(d) /\ ~done[d]
     /\ LET i == k[d] + 1
            new == NewInstances(sh, d, i)
        IN  /\ inst' = inst \cup new
@@ -154,7 +161,13 @@ Iterate(d) ==
            /\ cond' = [cond EXCEPT ![d] = i]
            /\ k' = [k EXCEPT ![d] = i]
     /\ insp' = {}
-    /\ UNCHANGED sh
+    /\ UNCHANGED <<sh, done>>
+
+(* the condition producer of iteration k[d] finishes and its output reads "false": the loop is over, nothing is unrolled *)
+Finish(d) == /\ d \in Loops(sh) /\ ~done[d]
+             /\ done' = [done EXCEPT ![d] = TRUE]
+             /\ insp' = {}
+             /\ UNCHANGED <<sh, k, inst, wire, latest, order, cond>>
 
 (* The runtime looks at the unrolled workflow all the time: Controller.initialise ("init"), the dependency     *)
 (* analysis / status report generate_status_report_for_nodes ("report", run by initialise and after every      *)
@@ -168,6 +181,7 @@ Inspect(kind) == /\ kind \notin insp
                  /\ UNCHANGED unrolled
 
 Next == \/ \E d \in {1, 2} : Iterate(d)        \* constant bounds: TLC then reports coverage per action
+        \/ \E d \in {1, 2} : Finish(d)
         \/ \E kind \in Kinds : Inspect(kind)
 Spec == Init /\ [][Next]_vars
 
@@ -250,7 +264,8 @@ LexAgreesWithNumeric == \A d \in Loops(sh) : LexMax(0 .. k[d]) = k[d]
 InstJson == {[loop |-> x.loop, iter |-> x.iter, role |-> x.role, rep |-> x.rep, refs |-> wire[x]] : x \in inst}
 InspectReadOnly == [][(\E kind \in Kinds : Inspect(kind)) => UNCHANGED unrolled]_vars
 
-NoInspect == insp = {}        \* CONSTRAINT of the emission run: the unrolled workflow does not depend on insp
-EmitState == (Emit /\ insp = {}) => PrintT(ToJson([sh |-> sh, k |-> k, inst |-> InstJson, latest |-> latest,
+FinishedLoopsStay == [][\A d \in Loops(sh) : done[d] => (k'[d] = k[d] /\ done'[d])]_vars
+NoInspect == insp = {} /\ \A d \in Loops(sh) : ~done[d]   \* CONSTRAINT of the emission run: the unrolled workflow does not depend on insp / done
+EmitState == (Emit /\ NoInspect) => PrintT(ToJson([sh |-> sh, k |-> k, inst |-> InstJson, latest |-> latest,
                                      order |-> order, cond |-> cond]))
 =============================================================================
